@@ -303,31 +303,39 @@ Fixpoint dec_args (fuel : nat) (ts : list stok) (args : list (str * str)) (vars 
       end
   end.
 
+Definition dec_pred (ts : list stok) : option (str * list stok) :=
+  match ts with
+  | TDQ raw :: r => Some (normalize_pred (unescape raw), r)
+  | TSQ s :: r => Some (normalize_pred s, r)
+  | TPRED s :: r => Some (normalize_pred s, r)
+  | TSYM s :: r => Some (normalize_pred s, r)
+  | _ => None
+  end.
+
+Definition dec_rel_tail (fuel : nat) (pred : str) (lk : lnk) (surf : option str) (ts : list stok) (vars : vprops)
+  : option (xep * list stok * vprops) :=
+  match ts with
+  | TFEAT f :: TSYM lbl :: ts5 =>
+      if str_eqb f LBL then
+        match dec_args fuel ts5 [] vars with
+        | Some (args, TRB :: ts6, vars') =>
+            Some ({| x_pred := pred; x_label := ascii_lower lbl; x_args := args;
+                     x_lnk := lk; x_surface := surf |}, ts6, vars')
+        | _ => None
+        end
+      else None
+  | _ => None
+  end.
+
 Definition dec_rel (fuel : nat) (ts : list stok) (vars : vprops) : option (xep * list stok * vprops) :=
   match ts with
   | TLB :: ts1 =>
-      match (match ts1 with
-             | TDQ raw :: r => Some (normalize_pred (unescape raw), r)
-             | TSQ s :: r => Some (normalize_pred s, r)
-             | TPRED s :: r => Some (normalize_pred s, r)
-             | TSYM s :: r => Some (normalize_pred s, r)
-             | _ => None end) with
+      match dec_pred ts1 with
       | None => None
       | Some (pred, ts2) =>
           let '(lk, ts3) := dec_lnk ts2 in
           let '(surf, ts4) := dec_dq ts3 in
-          match ts4 with
-          | TFEAT f :: TSYM lbl :: ts5 =>
-              if str_eqb f LBL then
-                match dec_args fuel ts5 [] vars with
-                | Some (args, TRB :: ts6, vars') =>
-                    Some ({| x_pred := pred; x_label := ascii_lower lbl; x_args := args;
-                             x_lnk := lk; x_surface := surf |}, ts6, vars')
-                | _ => None
-                end
-              else None
-          | _ => None
-          end
+          dec_rel_tail fuel pred lk surf ts4 vars
       end
   | _ => None
   end.
